@@ -7,6 +7,7 @@ import (
 	"net"
 	"net/netip"
 	"reflect"
+	"runtime"
 	"slices"
 	"sort"
 	"strings"
@@ -289,6 +290,13 @@ func referenceOf(r ech.ResolveResult, network string, wPort int, hintsForEmptyTa
 	return out
 }
 
+// wantFull is what a complete enumeration of world w yields on the implementation when nothing interferes (computed on a fresh
+// result; the comparison with the reference is made elsewhere).
+func wantFull(w world) []tgt {
+	full, _ := collect(build(w), w.Network, -1)
+	return full
+}
+
 func collect(r ech.ResolveResult, network string, stop int) (got []tgt, callsAfterStop int) {
 	return collectSeq(r.Targets(network), stop)
 }
@@ -487,6 +495,26 @@ func evalWorld(r *ev.Run, w world) {
 			r.Violation("impure:another-result-affected-by-consumer-edits", fmt.Sprintf("after a consumer edited the ALPN/ECH slices of the targets it had been handed, an independent result built from the same data yields %v (before: %v)", got3, got), w)
 		}
 		// (the edited result itself is used no more: for no-default-alpn records the yielded list IS the record's own)
+	}
+	// a consumer that leaves the loop body by a PANIC (recovered further up) or by runtime.Goexit (t.Fatal inside the loop): the
+	// enumeration is abandoned there; enumerations made afterwards - of this or any other result - are what they always are
+	if w.Stop == 0 && len(got) > 0 {
+		func() {
+			defer func() { recover() }()
+			res.Targets(w.Network)(func(ech.Target) bool { panic("consumer gives up") })
+		}()
+		if again, _ := collect(build(w), w.Network, -1); !reflect.DeepEqual(again, wantFull(w)) {
+			r.Violation("impure:enumeration-after-a-consumer-panicked", fmt.Sprintf("a consumer panicked inside the loop body (and recovered); the next enumeration of an equal result yields %v", again), w)
+		}
+		done := make(chan struct{})
+		go func() {
+			defer close(done)
+			res.Targets(w.Network)(func(ech.Target) bool { runtime.Goexit(); return true })
+		}()
+		<-done
+		if again, _ := collect(build(w), w.Network, -1); !reflect.DeepEqual(again, wantFull(w)) {
+			r.Violation("impure:enumeration-after-a-consumer-panicked", fmt.Sprintf("a consumer left the loop body through runtime.Goexit; the next enumeration of an equal result yields %v", again), w)
+		}
 	}
 	oc := fmt.Sprintf("n=%d", len(got))
 	nontrivial := ""
